@@ -362,6 +362,60 @@ def quat_vec_check(ctx, c, outs):
     return None
 
 
+def rotation_misc_check(ctx, c, outs):
+    """less travelled members of `Rotation` that carry the product / properness clauses: multiplication by +-1 (toggles the
+    improper flag element-wise, nothing else), `Rotation * Quaternion`, rotation angles between rotations (`angle_with`,
+    `angle_with_outer`, `degrees`) = the angle of `~R1 * R2`, and `dot_outer` = |<q1, q2>| with 0 across different properness"""
+    Q, R, O, M, qmod, V, Mi = _imp()
+    R1, R2 = _rot(R, c["r1"]), _rot(R, c["r2"])
+    n1, n2 = R1.size, R2.size
+    signs = np.array(c["signs"], int).reshape(R1.shape)
+    # (a numpy array of signs is not accepted by the unchanged code - `ndarray * Rotation` is refused - so lists are used)
+    for fac, want in ((-1, ~R1.improper), (1, R1.improper), (signs.tolist(), np.logical_xor(R1.improper, signs == -1))):
+        P = R1 * fac
+        if not isinstance(P, R) or not np.array_equal(P.improper, want) or not same_rot(P.data, R1.data, 1e-15):
+            return (f"Rotation * {np.asarray(fac).tolist()} has improper flags {np.asarray(P.improper).tolist()} (expected "
+                    f"{np.asarray(want).tolist()}) or changed its quaternions")
+    try:
+        R1 * 2
+        return "Rotation * 2 is accepted (only +-1 are)"
+    except ValueError:
+        pass
+    q = Q(np.array(R2.data, copy=True))
+    if R1.shape == R2.shape:
+        P = R1 * q
+        ref = np.stack([(Q(R1.data[i]) * Q(R2.data[i])).data.reshape(4) for i in np.ndindex(*R1.shape)]).reshape(R1.shape + (4,))
+        if isinstance(P, R) or not close(P.data, ref, 1e-12):
+            return f"Rotation * Quaternion = {type(P).__name__} {np.asarray(P.data).tolist()} but the quaternion products are {ref.tolist()}"
+        a = R1.angle_with(R2)
+        ad = R1.angle_with(R2, degrees=True)
+        want = np.array([float(np.atleast_1d((~R(R1.data[i]) * R(R2.data[i])).angle)[0]) for i in np.ndindex(*R1.shape)]).reshape(R1.shape)
+        same = R1.improper == R2.improper          # pairs of different properness: no rotation relates them, nothing demanded
+        if a.shape != R1.shape or (same.any() and np.abs(a - want)[same].max() > 1e-7):
+            return f"Rotation.angle_with = {a.tolist()} but the rotation angles of ~R1 * R2 are {want.tolist()} (same properness: {same.tolist()})"
+        if np.abs(np.deg2rad(ad) - a).max() > 1e-12:
+            return "Rotation.angle_with(degrees=True) is not the angle in radians rescaled"
+    A = R1.angle_with_outer(R2)
+    Ad = R1.angle_with_outer(R2, degrees=True)
+    D = R1.dot_outer(R2)
+    if A.shape != R1.shape + R2.shape or D.shape != R1.shape + R2.shape:
+        return f"outer angle / dot shapes {A.shape}, {D.shape} for rotations of shapes {R1.shape}, {R2.shape}"
+    if np.abs(np.deg2rad(Ad) - A).max() > 1e-12:
+        return "Rotation.angle_with_outer(degrees=True) is not the angle in radians rescaled"
+    for i in np.ndindex(*R1.shape):
+        for j in np.ndindex(*R2.shape):
+            dq = abs(float(np.dot(R1.data[i], R2.data[j])))
+            wa = 2 * math.acos(min(1.0, dq))
+            if bool(R1.improper[i]) == bool(R2.improper[j]) and abs(A[i + j] - wa) > 1e-7:
+                return (f"Rotation.angle_with_outer[{i + j}] = {float(A[i + j])!r} but the rotation angle between self[{i}] and "
+                        f"other[{j}] is {wa!r}")
+            wd = dq if bool(R1.improper[i]) == bool(R2.improper[j]) else 0.0
+            if abs(D[i + j] - wd) > 1e-12:
+                return (f"Rotation.dot_outer[{i + j}] = {float(D[i + j])!r} but |<q1, q2>| = {dq!r} with improper flags "
+                        f"{bool(R1.improper[i])}, {bool(R2.improper[j])} (expected {wd!r})")
+    return None
+
+
 def reuse_check(ctx, c, outs):
     """products of an object that was used before and then edited IN PLACE (setitem / data / component setters, also
     strided views) equal the products of a freshly constructed object with the same content"""
@@ -434,6 +488,7 @@ SITES = {
     "broadcast": sites.Site("broadcast", "prop", bcast_check),
     "broadcast_vec": sites.Site("broadcast_vec", "prop", bcast_vec_check),
     "quat_vec": sites.Site("quat_vec", "prop", quat_vec_check),
+    "rotation_misc": sites.Site("rotation_misc", "prop", rotation_misc_check),
     "align": sites.Site("align", "prop", align_check),
     "reuse_after_edit": sites.Site("reuse_after_edit", "prop", reuse_check),
 }
@@ -498,6 +553,13 @@ def generate(ctx):
             c = {"r1": dict(r1), "r2": r2}
             ctx.count("broadcast/fixed_pairs", ("bcf", sa, sb, rep), nontrivial=(sa != sb))
             yield "broadcast", c
+    for k in range(10 if ctx.tier == "quick" else 150):
+        sa = [(3,), (2, 2), (1,), (2, 3)][k % 4]
+        sb = sa if k % 2 == 0 else [(2,), (1, 3), (2, 2)][k % 3]
+        r1, r2 = rot_arr(rng, sa), rot_arr(rng, sb)
+        c = {"r1": r1, "r2": r2, "signs": [int(rng.choice([-1, 1])) for _ in r1["i"]]}
+        ctx.count("rotation_misc", ("rmisc", k, tuple(r1["q"][0])), nontrivial=True)
+        yield "rotation_misc", c
     for k in range(12 if ctx.tier == "quick" else 200):
         sa = [(2,), (1,), (2, 2), (3,)][k % 4]
         sb = [sa, (1,), (3,), (2, 1)][(k // 4) % 4]
